@@ -2,9 +2,13 @@ package main
 
 import (
 	"encoding/hex"
+	"net"
 	"strconv"
 	"strings"
 
+	"github.com/EdgeCast/vflow/ipfix"
+	netflow5 "github.com/EdgeCast/vflow/netflow/v5"
+	netflow9 "github.com/EdgeCast/vflow/netflow/v9"
 	"github.com/EdgeCast/vflow/reader"
 )
 
@@ -17,6 +21,9 @@ func cmdReader(args []tok) string {
 	if len(args) < 1 || args[0].kind != 'b' {
 		return "BADARGS"
 	}
+	// the reader is a library type used by the three flow decoders: whatever they leave behind in the process (recycled
+	// objects, package state) is there when this reader is made
+	warmDecoders()
 	r := reader.NewReader(guarded(args[0].b))
 	var outs []string
 	ops := args[1:]
@@ -80,6 +87,22 @@ func cmdReader(args []tok) string {
 	}
 	return strings.Join(outs, " ")
 }
+
+// warmDecoders runs each decoder that uses the reader once on a small well-formed datagram
+func warmDecoders() {
+	defer func() { recover() }()
+	ip := net.IPv4(192, 0, 2, 1).To4()
+	v5 := make([]byte, 24+48)
+	v5[1], v5[3] = 5, 1
+	netflow5.NewDecoder(ip, v5).Decode()
+	tpl10 := []byte{0, 10, 0, 32, 0, 0, 0, 0, 0, 0, 0, 1, 0, 0, 0, 1, 0, 2, 0, 16, 1, 0, 0, 2, 0, 8, 0, 4, 0, 12, 0, 4}
+	ipfix.NewDecoder(ip, tpl10).Decode(warmCache10)
+	tpl9 := []byte{0, 9, 0, 1, 0, 0, 0, 0, 0, 0, 0, 0, 0, 0, 0, 1, 0, 0, 0, 1, 0, 0, 0, 16, 1, 0, 0, 2, 0, 8, 0, 4, 0, 12, 0, 4}
+	netflow9.NewDecoder(ip, tpl9).Decode(warmCache9)
+}
+
+var warmCache10 = ipfix.GetCache("/nonexistent/verif-warm10")
+var warmCache9 = netflow9.GetCache("/nonexistent/verif-warm9")
 
 func uintRes(v uint64, err error) string {
 	if err != nil {
